@@ -5,6 +5,7 @@ import (
 	"bytes"
 	"fmt"
 	"io"
+	"reflect"
 	"runtime"
 	"sync"
 
@@ -25,7 +26,7 @@ func init() { register(c14{}) }
 func (c14) ID() string    { return "C14" }
 func (c14) Level() string { return "exploration" }
 func (c14) Rule() string {
-	return "(i) value oracle: frames of every type including type 0 are decoded with UnmarshalBinary on zero, NewX() and reused receivers and with ReadPacket from a stream; all accessors are snapshotted, the input slice is overwritten with 0xAA and then with random bytes, and the snapshot must not change; packets read earlier from a stream must not change when later ones are read. (ii) race oracle (race-detector build): after the decode one goroutine scribbles over the input slice while another reads every accessor and calls WriteTo/String/Dump with no synchronisation — any aliasing is a data race even where values coincide. (iii) pools of 4..16 packets (decoded ones and fresh NewX() values, which share package-level data) under random histories of decode-into / encode / setter operations (also setters of two packets given one argument slice with spare capacity, and the program overwriting byte slices that accessors handed out): every untouched packet keeps its snapshot after every step and a reference frame decodes to the same snapshot wherever in the history it is decoded. (iv) long runs over a working set of 64..4097 recurring names (topics, user-property keys, client ids), each decode compared with the reference reading; byte slices handed out by accessors are kept while their packets are dropped and collected, and must not change. distinct = (type, receiver kind, frame digest) resp. history signature; non-trivial = frame body non-empty"
+	return "(i) value oracle: frames of every type including type 0 are decoded with UnmarshalBinary on zero, NewX() and reused receivers, on packets ReadPacket returned earlier and on value copies of those and with ReadPacket from a stream; all accessors are snapshotted, the input slice is overwritten with 0xAA and then with random bytes, and the snapshot must not change; packets read earlier from a stream must not change when later ones are read. (ii) race oracle (race-detector build): after the decode one goroutine scribbles over the input slice while another reads every accessor and calls WriteTo/String/Dump with no synchronisation — any aliasing is a data race even where values coincide. (iii) pools of 4..16 packets (decoded ones and fresh NewX() values, which share package-level data) under random histories of decode-into / encode / setter operations (also setters of two packets given one argument slice with spare capacity, and the program overwriting byte slices that accessors handed out): every untouched packet keeps its snapshot after every step and a reference frame decodes to the same snapshot wherever in the history it is decoded. (iv) long runs over a working set of 64..4097 recurring names (topics, user-property keys, client ids), each decode compared with the reference reading; byte slices handed out by accessors are kept while their packets are dropped and collected, and must not change. distinct = (type, receiver kind, frame digest) resp. history signature; non-trivial = frame body non-empty"
 }
 func (c14) Assumptions() []string {
 	return []string{"slices handed to setters are the caller's business; the property concerns buffers handed to UnmarshalBinary / read buffers", "decoding into a used packet may leave any state in that packet, but must not touch others"}
@@ -112,7 +113,7 @@ func (c14) Run(c *run.Ctx, phase, idx int) {
 	}
 }
 
-var receiverKinds = []string{"zero", "new", "reused"}
+var receiverKinds = []string{"zero", "new", "reused", "from-ReadPacket", "copy-of-ReadPacket-result"}
 
 func receiver(r *gen.RNG, t, rk int) mq.Packet {
 	switch rk {
@@ -128,6 +129,30 @@ func receiver(r *gen.RNG, t, rk int) mq.Packet {
 		h, _ := ref.ParseHeader(f)
 		mon.Guard(func() { p.UnmarshalBinary(append([]byte(nil), f[h.HdrLen:]...)) })
 		return p
+	case 3, 4:
+		// a packet that ReadPacket returned earlier is recycled as the
+		// receiver (or a value copy of it is)
+		if t == 0 {
+			break
+		}
+		a := gen.Packet(r, t, gen.RandomMask(r, t), gen.Small, wfDomain)
+		f, _ := ref.Encode(a)
+		res := libRead(f)
+		if !res.Accepted() || bind.TypeOf(res.Pkt) != t {
+			break
+		}
+		if rk == 3 {
+			return res.Pkt
+		}
+		v := reflect.ValueOf(res.Pkt)
+		if v.Kind() != reflect.Ptr {
+			break
+		}
+		cp := reflect.New(v.Elem().Type())
+		cp.Elem().Set(v.Elem())
+		if q, ok := cp.Interface().(mq.Packet); ok {
+			return q
+		}
 	}
 	return bind.Zero(t)
 }
@@ -153,10 +178,10 @@ func c14Overwrite(c *run.Ctx, r *gen.RNG) {
 		}
 		t := int(h.First >> 4)
 		T := tname(t)
-		for rk := 0; rk < 3; rk++ {
+		for rk := 0; rk < len(receiverKinds); rk++ {
 			buf := append([]byte(nil), f.Bytes[h.HdrLen:]...)
 			p := receiver(r, t, rk)
-			if pub, ok := p.(*mq.Publish); ok && rk != 2 {
+			if pub, ok := p.(*mq.Publish); ok && rk < 2 {
 				pub.SetQoS((h.First >> 1) & 3)
 			}
 			var derr error
@@ -368,9 +393,9 @@ func c14Scribble(c *run.Ctx, r *gen.RNG) {
 		}
 		t := int(h.First >> 4)
 		T := tname(t)
-		rk := r.Intn(3)
+		rk := r.Intn(len(receiverKinds))
 		p := receiver(r, t, rk)
-		if pub, ok := p.(*mq.Publish); ok && rk != 2 {
+		if pub, ok := p.(*mq.Publish); ok && rk < 2 {
 			pub.SetQoS((h.First >> 1) & 3)
 		}
 		buf := append([]byte(nil), f.Bytes[h.HdrLen:]...)
